@@ -80,6 +80,10 @@ var solverSem = make(chan struct{}, 16)
 // raceSolve writes the query to a scratch file and runs all back ends. If all is set every back
 // end is run to completion and disagreements are reported as answer "disagree".
 func raceSolve(scratch, name, query string, timeoutS int, all bool) solveResult {
+	return raceSolveOn(scratch, name, query, timeoutS, all, backends)
+}
+
+func raceSolveOn(scratch, name, query string, timeoutS int, all bool, backends []backend) solveResult {
 	file := filepath.Join(scratch, sanitizeFile(name)+".smt2")
 	if err := os.WriteFile(file, []byte(query), 0o644); err != nil {
 		return solveResult{Answer: "error", Output: err.Error()}
